@@ -49,12 +49,15 @@ def unchanged(E, r, s):
 
 
 def effect(E, r, feed):
-    """conversion vector of reaction r for the feed (mol basis feeds; wt reactions get masses)"""
+    """molar conversion vector of reaction r for a molar feed, whatever r's basis"""
     sp = C.mod('thermosteam.base.sparse')
+    mw = R.MW(R.fixture(not E.concrete), not E.concrete)
+    wt = r._basis == 'wt'
     m = sp.SparseVector.from_size(5)
-    S.inject(m, feed)
+    S.inject(m, [x * mw[i] for i, x in enumerate(feed)] if wt else feed)
     d = r._conversion(m)
-    return [d.dct.get(i, 0.0) for i in range(5)]
+    out = [d.dct.get(i, 0.0) for i in range(5)]
+    return [x / mw[i] for i, x in enumerate(out)] if wt else out
 
 
 def xnu(r):
@@ -78,7 +81,9 @@ def _pair(E, fx, basis):
     pa = [1, 4] if reactant == 0 else [2, 3, 4]
     pb = [2, 3, 4] if reactant == 0 else [0, 4] if E.choice(2, 'b-shape') else [2, 3, 4]
     a, nua, Xa = R.mk_reaction(E, fx, 'a', reactant, pa, basis)
-    b, nub, Xb = R.mk_reaction(E, fx, 'b', reactant, pb, basis)
+    # the second operand may be defined on the other basis (it is converted by the library)
+    basis_b = basis if not E.choice(2, 'b-on-other-basis') else ('wt' if basis == 'mol' else 'mol')
+    b, nub, Xb = R.mk_reaction(E, fx, 'b', reactant, pb, basis_b)
     E.assume(Xa > 0)
     E.assume(Xb > 0)
     return a, b, reactant
@@ -97,7 +102,8 @@ def g_add_sub():
         if op == 'add':
             c = a + b
             E.prove('sum-acts-like-parallel', same_vec(E, effect(E, c, feed), [x + y for x, y in zip(ea, eb)]), sig=sig)
-            E.prove('conversion-adds', near(E, c.X, a.X + b.X), sig=sig)
+            if a._basis == b._basis:
+                E.prove('conversion-adds', near(E, c.X, a.X + b.X), sig=sig)
             E.prove('returns-new-object', new_object(c, a, b), sig=sig)
         elif op == 'radd0':
             c = 0 + a if False else sum([a, b])      # sum() starts from 0: exercises __radd__
@@ -184,15 +190,8 @@ def g_scale():
             c = a.copy(other)
             E.prove('returns-new-object', new_object(c, a), sig=sig)
             E.prove('operands-unchanged', unchanged(E, a, sa), sig=sig)
-            mw = R.MW(fx, not E.concrete)
-            # the re-based copy converts the same amounts: mass effect = MW * molar effect
-            fm = [x * mw[i] for i, x in enumerate(feed)] if other == 'wt' else feed
-            ec = effect(E, c, fm)
-            fa = [x * mw[i] for i, x in enumerate(feed)] if basis == 'wt' else feed
-            ea2 = effect(E, a, fa)
-            mol_c = [x / mw[i] for i, x in enumerate(ec)] if other == 'wt' else ec
-            mol_a = [x / mw[i] for i, x in enumerate(ea2)] if basis == 'wt' else ea2
-            E.prove('rebased-copy-acts-alike', same_vec(E, mol_c, mol_a), sig=sig)
+            # the re-based copy converts the same molar amounts
+            E.prove('rebased-copy-acts-alike', same_vec(E, effect(E, c, feed), ea), sig=sig)
         else:
             if reactant == 0:
                 # Glucose -> nu1 Ethanol + nu4 CO2 : two products, a reactant must be named
